@@ -82,7 +82,9 @@ RelBase(Q, clause, op, names, kinds) ==
                     \/ clause \in StateClauses /\ names \cap (RunF \cup {"board", "boardPend"}) # {}
                     \/ clause \in StateClauses /\ "PUSH" \in kinds /\ names \cap (PotF \cup ChipF \cup {"log"}) # {}
                     \/ clause = "outcome-other" /\ op \in {"push_chips", "show_or_muck_hole_cards", "kill_hand", "deal_board", "select_runout_count"}
-    [] Q \in {"C09", "C15", "C16", "C17", "C20"} -> clause \in TwinClauses
+    [] Q = "C15" -> \/ clause \in TwinClauses
+                    \/ clause \in StateClauses /\ "log" \in names       \* the record of an operation says exactly what was done
+    [] Q \in {"C09", "C16", "C17", "C20"} -> clause \in TwinClauses
     [] OTHER -> TRUE
 RelevantFor(Q, clause, op, names, kinds) ==
   IF Q = "C11" THEN \/ clause = "variant-config"
